@@ -371,7 +371,8 @@ static void eb_mul_sim_trick_imp(eb_t r, const eb_t p, const bn_t k,
 		const eb_t q, const bn_t m) {
 	eb_t t0[1 << (RLC_WIDTH / 2)], t1[1 << (RLC_WIDTH / 2)], t[1 << RLC_WIDTH];
 	size_t l0, l1, w = RLC_WIDTH / 2;
-	uint8_t w0[RLC_FB_BITS], w1[RLC_FB_BITS];
+	/* Windows of RLC_WIDTH / 2 bits, which is 1 for RLC_WIDTH < 4. */
+	uint8_t w0[RLC_FB_BITS + 1], w1[RLC_FB_BITS + 1];
 	bn_t n;
 
 	bn_null(n);
